@@ -187,11 +187,9 @@ func (m *MuxBroker) getStream(id uint32) *muxBrokerPending {
 func (m *MuxBroker) timeoutWait(id uint32, p *muxBrokerPending) {
 	// Wait for the stream to either be picked up and connected, or
 	// for a timeout.
-	timeout := false
 	select {
 	case <-p.doneCh:
 	case <-time.After(5 * time.Second):
-		timeout = true
 	}
 
 	m.Lock()
@@ -200,13 +198,12 @@ func (m *MuxBroker) timeoutWait(id uint32, p *muxBrokerPending) {
 	// Delete the stream so no one else can grab it
 	delete(m.streams, id)
 
-	// If we timed out, then check if we have a channel in the buffer,
-	// and if so, close it.
-	if timeout {
-		select {
-		case s := <-p.ch:
-			s.Close()
-		default:
-		}
+	// Whether we timed out or the stream was picked up, a connection that
+	// is in the buffer now can no longer be accepted (one that arrived
+	// after the accept took its predecessor, for instance): close it.
+	select {
+	case s := <-p.ch:
+		s.Close()
+	default:
 	}
 }
